@@ -30,7 +30,7 @@ big integers as decimal strings.
   S = {"crc","events":[E],"actors":[{"name","active","channels":[{"name","active","events":[E]}]}],"ramp":[[t,Q]],"ip"}
   E = {"extra":["plain",t]|["gesture",d]|["loop","c"]|["speak",cc,hex,b,b,b],"name","start","stop","p":[hex×3],
        "ramp","flags","dist","rel","timing","absP","absS":[[hex,Q]],"tn","tw":hex|null,"flex":[F]}
-  F = {"name","active","min","max","mag":[[t,Q,c1,c2]],"dir":null|[…]};  Q = ["num","den"]
+  F = {"name","active","min","max","mag":[[t,Q,c1,c2]],"dir":null|[…]};  Q = "decimal string of the float64 bit pattern"
 -/
 open Lean C20
 
@@ -109,11 +109,11 @@ def intOfStr (j : Json) : Except String Int := do
 namespace BJ
 open C20.Bvcd
 
+/-- a quantised value travels as the decimal string of its float64 bit pattern -/
 def qOf (j : Json) : Except String QVal := do
-  let a ← j.getArr?
-  pure (← intOfStr a[0]!, (← intOfStr a[1]!).toNat)
+  pure (B64.decode (UInt64.ofNat (← intOfStr j).toNat))
 
-def qJ (q : QVal) : Json := Json.arr #[Json.str (toString q.1), Json.str (toString q.2)]
+def qJ (q : QVal) : Json := Json.str (toString (B64.encode q).toNat)
 
 def arrOf {α : Type} (f : Json → Except String α) (j : Json) : Except String (List α) := do
   (← j.getArr?).toList.mapM f
